@@ -597,6 +597,78 @@ func (s *Scenario) Build() *jen.File {
 	return f
 }
 
+// BuildStaged builds the File of the scenario in two stages with a render in between, the way a generator that prints
+// what it has so far does: the paths at odd positions (unless they are "C", occur twice, or are named by an ImportNames
+// table) get their ImportName / ImportAlias / Anon calls and their references only after the first render. No hint of
+// the second stage concerns a path that the first render showed, so nothing the scenario says changes and the final
+// output is judged like that of Build. Returns nil when there is nothing to defer.
+func (s *Scenario) BuildStaged() *jen.File {
+	if s.EmptyBody != 0 || len(s.Paths) < 2 {
+		return nil
+	}
+	inNames, early := map[string]bool{}, map[string]bool{}
+	for _, h := range s.Hints {
+		if h.Op == "ImportNames" {
+			for p := range h.Names {
+				inNames[p] = true
+			}
+		}
+	}
+	for i, p := range s.Paths {
+		if i%2 == 0 {
+			early[p.Path] = true
+		}
+	}
+	late := map[string]bool{}
+	for i, p := range s.Paths {
+		if i%2 == 1 && !inNames[p.Path] && !early[p.Path] && p.Path != "C" && p.Path != s.LocalPath {
+			late[p.Path] = true
+		}
+	}
+	if len(late) == 0 {
+		return nil
+	}
+	first := *s
+	first.Hints = nil
+	var lateHints []Hint
+	for _, h := range s.Hints {
+		if (h.Op == "ImportName" || h.Op == "ImportAlias" || h.Op == "Anon") && late[h.Path] {
+			lateHints = append(lateHints, h)
+		} else {
+			first.Hints = append(first.Hints, h)
+		}
+	}
+	f := first.NewFile()
+	f.Type().Id("V_Gen").Types(jen.Id("T").Any()).Struct()
+	if s.LocalPath != "" {
+		f.Var().Id(localSym).Op("=").Lit(1)
+		f.Type().Id(localTyp).Op("=").Int()
+	}
+	isLate := func(rf Ref) bool { return rf.Path >= 0 && late[s.Paths[rf.Path].Path] }
+	for n, rf := range s.Refs {
+		if !isLate(rf) {
+			f.Add(s.RefCode(n, rf))
+		}
+	}
+	Render(f) // the intermediate output is not judged
+	for _, h := range lateHints {
+		switch h.Op {
+		case "ImportName":
+			f.ImportName(h.Path, h.Name)
+		case "ImportAlias":
+			f.ImportAlias(h.Path, h.Name)
+		case "Anon":
+			f.Anon(h.Path)
+		}
+	}
+	for n, rf := range s.Refs {
+		if isLate(rf) {
+			f.Add(s.RefCode(n, rf))
+		}
+	}
+	return f
+}
+
 type Spec struct {
 	Name string // "" if no name written
 	Path string
